@@ -158,10 +158,11 @@ META = {
         "EXHAUSTIVE over ordered pairs of a pool of 51 field types (scalars incl. bool/int subclassing, same origin with different arguments, fixed / variadic / empty tuples, "
         "abstract and concrete iterables, dicts, optionals and unions with 2-3 cases containing them, models incl. a subclass model and a generic model with different "
         "arguments, NewType, Annotated, Literal) as the type of the same-named field of a source and a destination model (2601 pairs; thorough: also inside List, "
-        "Optional and Dict values = 10404; quick samples the wrappers) + 6 link-policy cases. Oracle: produced => inside the documented relation (reference `coercible`) and "
+        "Optional and Dict values = 10404; quick samples the wrappers) + 6 link-policy cases + random sequences of allow_unlinked_optional / forbid_unlinked_optional over 14 predicates split between the "
+        "per-call and the retort's recipe (first matching policy per unlinked optional field, default forbid, nested and factory fields). Oracle: produced => inside the documented relation (reference `coercible`) and "
         "witness values conform to the destination at run time; refused => ProviderNotFoundError. Completeness is counted, not asserted. distinct = (S, D, wrapper); non-trivial = S is not D",
         cases=(20, 40), budget=(50, 420),
-        minimums={"quick": {"pairs": 4000, "produced": 150, "refused": 3000, "witness_conversions": 150, "policy_cases": 6, "distinct_nontrivial": 3000}},
+        minimums={"quick": {"pairs": 4000, "produced": 150, "refused": 3000, "witness_conversions": 150, "policy_cases": 6, "policy_order_allowed": 100, "policy_order_refused": 150, "distinct_nontrivial": 3000}},
         exhaustive={"quick": True, "thorough": True},
         assumptions=["reference relation = docs/conversion/tutorial.rst 'Type coercion' (type equality via an independent structural description of hints)"],
     ),
